@@ -33,7 +33,7 @@ CFG = {
     ],
     "harness_pkg": "hx-c19",
     "harness_bin": "c19",
-    "n": {"quick": 9000, "thorough": 60000},
+    "n": {"quick": 10500, "thorough": 80000},
     "exhaustive": {"quick": False, "thorough": False},
     "trivial_tags": ["plain"],
     "rule": "a case = one scenario + one interleaving (list of thread ids) replayed on real OS threads driven in lock-step through the "
